@@ -18,6 +18,24 @@ CLAIMS = {
             "DESIGN.md 3/R1, 5/C02"),
 }
 
+CLAIMS.update({
+    "C04": ("exploration",
+            "deterministic simulation; per-change metadata model (seq, start_op, deps) against the creating replica's pre-state; heads = maximal elements after every event",
+            "Every change is checked at the event that creates it against the pre-state recorded by the harness (applied set, heads, isolation heads), and heads are compared with the maximal elements of the applied set after every event, over seeded programs mixing commits, empty commits, merges, forks, actor switches, isolation and restarts.",
+            "Trusts Change::decode for metadata and the registry's record of which replica created which change.",
+            "DESIGN.md 5/C04"),
+    "C05": ("exploration",
+            "deterministic gossip simulation with reordering/loss/duplication/subsets; delivered-set model (D, greatest dep-closed A) checked after every delivery",
+            "The harness keeps the delivered set per replica; after each delivery/restart the applied set must equal the greatest dep-closed subset, heads its maxima, the state R1 of it, and get_missing_deps the model's answer; the quiesce phase delivers the rest in shuffled order and requires equal final states.",
+            "Assumes no actor reuse in this workload; sync is not used as a delivery path here (covered by C20/C21).",
+            "DESIGN.md 5/C05"),
+    "C10": ("exploration",
+            "deterministic simulation; registry of change bytes at creation compared with every later retrieval path; harness-side SHA-256; get_changes(have) vs registry DAG",
+            "At probe points and at the end, on every replica and again after load(save()): get_change_by_hash/get_changes/get_changes_added/get_last_local_change are compared byte-for-byte with the registry, hashes recomputed by the harness, and get_changes(have) against the registry DAG (exact set, deps first).",
+            "Trusts the harness SHA-256 (sha2 crate) and registry; have-sets are those that occurred as heads in the run plus one with a foreign hash.",
+            "DESIGN.md 5/C10"),
+})
+
 NOT_APPLICABLE = {
     "C33": "CLI JSON import/export is a pure function of one JSON input run through a separate binary: no schedule, fault, crash point or multi-party history for a simulator to own (DESIGN.md 6).",
     "C34": "Hexane columns vs Vec is single-threaded model-based testing of an in-memory data structure over edit programs: no schedule, clock, fault or interleaving (DESIGN.md 6).",
